@@ -697,7 +697,7 @@ func (a *Authority) GetSSHHosts(ctx context.Context, cert *x509.Certificate) ([]
 }
 
 func (a *Authority) getAddUserPrincipal() (cmd string) {
-	if a.config.SSH.AddUserPrincipal == "" {
+	if a.config.SSH == nil || a.config.SSH.AddUserPrincipal == "" {
 		return SSHAddUserPrincipal
 	}
 	return a.config.SSH.AddUserPrincipal
@@ -705,7 +705,7 @@ func (a *Authority) getAddUserPrincipal() (cmd string) {
 
 func (a *Authority) getAddUserCommand(principal string) string {
 	var cmd string
-	if a.config.SSH.AddUserCommand == "" {
+	if a.config.SSH == nil || a.config.SSH.AddUserCommand == "" {
 		cmd = SSHAddUserCommand
 	} else {
 		cmd = a.config.SSH.AddUserCommand
